@@ -549,10 +549,12 @@ pub fn export_bodies<'tcx>(tcx: TyCtxt<'tcx>) -> J {
     for id in tcx.mir_keys(()) {
         let did = id.to_def_id();
         let dk = tcx.def_kind(did);
-        if !matches!(dk, DefKind::Fn | DefKind::AssocFn | DefKind::Closure) {
+        let is_const = matches!(dk, DefKind::Const { .. } | DefKind::AssocConst { .. } | DefKind::Static { .. });
+        if !matches!(dk, DefKind::Fn | DefKind::AssocFn | DefKind::Closure) && !is_const {
             continue;
         }
-        let body: &Body<'tcx> = tcx.optimized_mir(did);
+        // named constants / statics: their initialiser (the rule engine evaluates tables such as `const RULES: [Rule; 2]`)
+        let body: &Body<'tcx> = if is_const { tcx.mir_for_ctfe(did) } else { tcx.optimized_mir(did) };
         let env = TypingEnv::post_analysis(tcx, did);
         let cx = Cx { tcx, body, env };
         let mut v: Vec<(&str, J)> = vec![
